@@ -40,6 +40,7 @@ def shards(tier):
     if tier != "quick":
         out += [{"n": 5, "slice": [i, 16], "thin": 97} for i in range(16)]
     out.append({"n": 0, "high": True})
+    out.append({"n": 0, "special": True})
     return out
 
 
@@ -47,6 +48,11 @@ HIGH_OFFSETS = [0x7FFF0000, 0x7FFFFC00, 0x80002000, 0x80010000, 0xC0000200, 0xFF
 
 
 def run_shard(shard, ctx):
+    if shard.get("special"):
+        for what in ("duplicate-inline", "duplicate-visor", "two-archives-interleaved", "gzip-multi-member-2", "gzip-multi-member-5",
+                     "gzip-member-boundary-in-header"):
+            run_case({"special": what}, ctx)
+        return
     if shard.get("high"):
         # data areas at and above 2 GiB / close to the top of the 32-bit offset field, in every order of three
         for offs in itertools.permutations(HIGH_OFFSETS, 3):
@@ -100,9 +106,75 @@ def _case_high(case, ctx):
                           {"names": [m.name for m in got], "lens": [len(b) for b in bodies]})
 
 
+def _listing(t):
+    return [(m.name, m.isdir(), (t.extractfile(m).read() if m.isreg() else None)) for m in t.getmembers()]
+
+
+def _case_special(case, ctx):
+    import gzip
+
+    from dissect.hypervisor.util import vmtar
+
+    what = case["special"]
+    ctx.executions += 1
+    ctx.model(case)
+    ctx.sample(case)
+    ctx.outcome("mixed")
+    ctx.nontrivial += 1
+    ctx.transitions += 1
+    ctx.states += 1
+    with ctx.watch(case):
+        try:
+            if what.startswith("duplicate"):
+                kind = "ustar" if what == "duplicate-inline" else "visor"
+                # the same entry (identical header metadata) appended twice with different content, as `tar -r` produces
+                members = [("d/", "vdir", b""), ("d/same", kind, b"FIRST" * 103), ("d/x", "visor", b"X" * 700),
+                           ("d/same", kind, b"LATER" * 103), ("d/u", "ustar", b"U" * 513)]
+                img, _ = B.build(members, 512)
+                exp = [(n.rstrip("/"), k in ("vdir", "dir"), (None if k in ("vdir", "dir") else d)) for n, k, d in members]
+                got = _listing(vmtar.open(fileobj=io.BytesIO(img)))
+            elif what == "two-archives-interleaved":
+                # two archives open at the same time that contain identical inline member headers at different positions
+                m1 = [("d/", "vdir", b""), ("d/u", "ustar", b"A" * 600), ("d/v", "visor", b"V" * 513)]
+                m2 = [("d/v2", "visor", b"W" * 4097), ("d/pad", "ustar", b"P" * 1500), ("d/", "vdir", b""), ("d/u", "ustar", b"A" * 600)]
+                i1, _ = B.build(m1, 512)
+                i2, _ = B.build(m2, 4096)
+                t1 = vmtar.open(fileobj=io.BytesIO(i1))
+                t2 = vmtar.open(fileobj=io.BytesIO(i2))
+                g1 = t1.getmembers()
+                g2 = t2.getmembers()
+                got = [(m.name, (t1.extractfile(m).read() if m.isreg() else None)) for m in g1] + \
+                      [(m.name, (t2.extractfile(m).read() if m.isreg() else None)) for m in g2] + \
+                      [(m.name, (t1.extractfile(m).read() if m.isreg() else None)) for m in g1]
+                e1 = [(n.rstrip("/"), None if k == "vdir" else d) for n, k, d in m1]
+                e2 = [(n.rstrip("/"), None if k == "vdir" else d) for n, k, d in m2]
+                exp = e1 + e2 + e1
+            else:
+                members = [("d/", "vdir", b""), ("d/a", "visor", _data(1, 4097)), ("d/u", "ustar", _data(2, 1500)),
+                           ("d/b", "visor", _data(3, 513)), ("d/c", "visor", _data(4, 9000))]
+                raw, _ = B.build(members, 512, [4, 1, 3])
+                n = {"gzip-multi-member-2": 2, "gzip-multi-member-5": 5, "gzip-member-boundary-in-header": 0}[what]
+                if n:
+                    step = (len(raw) + n - 1) // n
+                    cuts = [raw[i:i + step] for i in range(0, len(raw), step)]
+                else:
+                    cuts = [raw[:700], raw[700:1111], raw[1111:]]  # member boundaries inside the header area
+                gz = b"".join(gzip.compress(c, mtime=0) for c in cuts)
+                exp = [(nm.rstrip("/"), k == "vdir", (None if k == "vdir" else d)) for nm, k, d in members]
+                got = _listing(vmtar.open(fileobj=io.BytesIO(gz)))
+        except Exception as e:
+            ctx.violation(case, {"subject": "vmtar." + what, "kind": "exception", "exc": type(e).__name__}, {"exception": repr(e)[:300]})
+            return
+    if got != exp:
+        ctx.violation(case, {"subject": "vmtar." + what, "kind": "content-mismatch"},
+                      {"got": [str(x)[:60] for x in got[:8]], "expected": [str(x)[:60] for x in exp[:8]]})
+
+
 def run_case(case, ctx):
     from dissect.hypervisor.util import vmtar
 
+    if "special" in case:
+        return _case_special(case, ctx)
     if "high" in case:
         return _case_high(case, ctx)
     ks = case["kinds"]
